@@ -4,16 +4,16 @@
 package main
 
 import (
-	"bytes"
 	"encoding/base64"
 	"encoding/json"
 	"fmt"
 	"os"
 	"path/filepath"
-	"reflect"
 	"sort"
 	"strings"
 	"sync"
+
+	"github.com/pgavlin/dawn"
 )
 
 // set by -replay
@@ -97,8 +97,16 @@ func runFileFaults(r *rng, tier string, dir0 string, mk func(int) string) {
 			} else {
 				stats["recfile.chmod-skipped-as-root"]++
 			}
+			if !strings.HasSuffix(f, "index.json") { // key- and field-level mutants of the record's JSON
+				js := jsonFaults(f, orig)
+				stats["recfile.json-mutants"] += len(js)
+				one = append(one, js...)
+			}
 			for _, ff := range one {
 				faults = append(faults, ff)
+				if strings.HasPrefix(ff.name, "json-field") || strings.HasPrefix(ff.name, "json-dep-value") {
+					continue // (the field-level mutants only through a full load)
+				}
 				ff.prefer = true
 				faults = append(faults, ff)
 			}
@@ -151,13 +159,13 @@ func runFileFaults(r *rng, tier string, dir0 string, mk func(int) string) {
 				switch {
 				case res == "crash" || res == "hang" || res == "spawn-failed":
 					violation("record-"+res, ff.input(), "Load+Run after a file-level fault ("+ff.name+" on "+ff.file+"): "+detail)
-				case res == "ok" && executed == 0 && detail == "" && kindOfFile != "index" && !ff.prefer:
+				case res == "ok" && executed == 0 && detail == "" && kindOfFile != "index" && !ff.prefer && ff.name != "json-key-collision":
+					// (two keys that unescape to one label: which stamp the map keeps depends on Go's map order, and one of the
+					// two readings is the unchanged record — only the no-crash judge applies)
 					// (an index-only load is never what a build runs on: cmd/dawn build and watch load with index=false, and
 					// indexTarget.upToDate is constantly true by design, so with PreferIndex only the crash judge applies)
 					// nothing ran: legitimate only if the file still says what it said
-					var a, b any
-					same := ff.kind == "content" && json.Unmarshal(snap[ff.file], &a) == nil &&
-						json.NewDecoder(bytes.NewReader(ff.content)).Decode(&b) == nil && reflect.DeepEqual(a, b)
+					same := ff.kind == "content" && dawn.VerifSameRecord(snap[ff.file], ff.content, strings.HasSuffix(ff.file, "%2Fdefault"), kindOfFile == "source") // as loadTargetInfo reads them; the requested root //:default has no dependent that would read its run counter
 					if same {
 						stats["recfile.semantically-unchanged"]++
 					} else {
